@@ -1296,6 +1296,28 @@ func (s *SweepingProvider) handleReprovide() {
 				timeSinceTimerUntilNext = s.timeBetween(s.timeOffset(s.scheduleTimerStartedAt), next.Data)
 				count++
 			}
+			// The late regions are caught up from the reprovide queue, but the
+			// next slot of one of them may still be the closest one (the timer
+			// ran for almost a whole cycle, or the region was added while it was
+			// running). Arm the timer for the region whose slot comes first after
+			// the current instant instead of skipping all of them.
+			var first, upcoming *trie.Entry[bitstr.Key, time.Duration]
+			for entry := range keyspace.EntriesIter(s.schedule, s.order) {
+				e := entry
+				if first == nil {
+					first = &e
+				}
+				if e.Data > currentTimeOffset {
+					upcoming = &e
+					break
+				}
+			}
+			if upcoming == nil {
+				upcoming = first
+			}
+			if upcoming != nil {
+				next = upcoming
+			}
 		}
 
 		// next is in the future
